@@ -283,6 +283,77 @@ def defuse_program(rng, pid):
             "init": [], "blocks": blocks, "fn": {"name": "f", "in": [], "out": [r]}, "outs": [r]}
 
 
+def array_live_program(rng, pid):
+    """directed family (C18 liveness): two integer variables and two 2-cell arrays A, B (element size 1); array_init, stores at
+    constant or symbolic indices flagged strong or weak (either way ONE cell is written and the other keeps flowing through),
+    array copies, loads feeding branches, assertions and the function output; straight-line, diamond and (do-while) loop shapes.
+    Liveness facts about ARRAY variables are judged like those about scalars: changing a dead array's content must not matter."""
+    X, Y, A, B_ = 1, 2, 3, 4
+    ints = [X, Y]
+    vars_ = [{"n": "x", "t": "int", "w": 8}, {"n": "y", "t": "int", "w": 8}, {"n": "A", "t": "arr"}, {"n": "B", "t": "arr"}]
+    lc = lambda c: {"k": c, "t": []}
+    lv = lambda v, k=0, c=1: {"k": k, "t": [[c, v]]}
+    na = [0]
+
+    def arr():
+        return rng.choice([A, A, B_])
+
+    def val():
+        return lc(rng.randint(-1, 1)) if rng.random() < 0.5 else lv(rng.choice(ints))
+
+    def one():
+        k = rng.choice(["store", "store", "store", "load", "load", "copy", "init", "symstore", "scalar", "assume", "assert"])
+        if k == "store":
+            return [{"op": "astore", "a": arr(), "i": lc(rng.randint(0, 1)), "v": val(), "es": 1, "strong": rng.choice([0, 1, 1])}]
+        if k == "load":
+            return [{"op": "aload", "x": rng.choice(ints), "a": arr(), "i": lc(rng.randint(0, 1)), "es": 1}]
+        if k == "copy":
+            a, b = rng.sample([A, B_], 2)
+            return [{"op": "aassign", "a": a, "b": b}]
+        if k == "init":
+            return [{"op": "ainit", "a": arr(), "es": 1, "lb": lc(0), "ub": lc(1), "v": val()}]
+        if k == "symstore":
+            v = rng.choice(ints)
+            return [{"op": "havoc", "x": v}, {"op": "assume", "c": {"e": lv(v, -1), "r": "le"}}, {"op": "assume", "c": {"e": lv(v, 0, -1), "r": "le"}},
+                    {"op": "astore", "a": arr(), "i": lv(v), "v": lc(rng.randint(-1, 1)), "es": 1, "strong": rng.choice([0, 1])}]
+        if k == "scalar":
+            return [hist.stmt(rng, ints, [], "c17")]
+        c = {"e": {"k": rng.choice([-1, 0, 1]), "t": [[rng.choice([1, -1]), rng.choice(ints)]]}, "r": rng.choice(["le", "lt", "eq", "ne"])}
+        if k == "assume":
+            return [{"op": "assume", "c": c}]
+        na[0] += 1
+        return [{"op": "assert", "c": c, "id": na[0]}]
+
+    def some(n):
+        out = []
+        for _ in range(n):
+            out += one()
+        return out
+    shape = rng.choice(["line", "line", "diamond", "dowhile", "dowhile"])
+    if shape == "line":
+        blocks = [{"succ": [2], "stmts": some(rng.randint(1, 3))}, {"succ": [3], "stmts": some(rng.randint(1, 3))},
+                  {"succ": [], "stmts": some(rng.randint(0, 2))}]
+    elif shape == "diamond":
+        g = {"e": {"k": 0, "t": [[1, rng.choice(ints)]]}, "r": "le"}
+        blocks = [{"succ": [2, 3], "stmts": some(rng.randint(1, 3))},
+                  {"succ": [4], "stmts": [{"op": "assume", "c": g}] + some(rng.randint(1, 2))},
+                  {"succ": [4], "stmts": [{"op": "assume", "c": negate(g)}] + some(rng.randint(0, 2))},
+                  {"succ": [], "stmts": some(rng.randint(1, 2))}]
+    else:       # entry; body (executed at least once, branches back on a condition over a loaded cell); exit
+        v = rng.choice(ints)
+        g = {"e": {"k": 0, "t": [[1, v]]}, "r": "le"}
+        blocks = [{"succ": [2], "stmts": some(rng.randint(1, 2))},
+                  {"succ": [3, 4], "stmts": some(rng.randint(1, 3)) + [{"op": "aload", "x": v, "a": arr(), "i": lc(rng.randint(0, 1)), "es": 1}]},
+                  {"succ": [2], "stmts": [{"op": "assume", "c": g}]},
+                  {"succ": [], "stmts": [{"op": "assume", "c": negate(g)}] + some(rng.randint(0, 2))}]
+    # the exit block ends by loading a cell into the output
+    out_v = rng.choice(ints)
+    if rng.random() < 0.7:
+        blocks[-1]["stmts"].append({"op": "aload", "x": out_v, "a": arr(), "i": lc(rng.randint(0, 1)), "es": 1})
+    return {"id": pid, "shape": "arraylive:" + shape, "vars": vars_, "kinds": ["int", "int", "arr", "arr"], "ncells": 2, "nv": 4, "entry": 1,
+            "exit": len(blocks), "blocks": blocks, "init": [], "fn": {"name": "f", "in": [], "out": [out_v]}, "outs": [out_v]}
+
+
 def has_loop(p):
     # a cycle reachable from the entry
     color = {}
